@@ -74,7 +74,9 @@ fn gen(g: &mut G, thorough: bool) -> Plan {
     for i in 0..g.below(4) {
         head.extend_from_slice(format!("X-Proxy-{}: {}\r\n", i, "v".repeat(g.size(2000))).as_bytes());
     }
-    head.extend_from_slice(b"\r\n");
+    // refusal bodies: announce a length sometimes (exact, or - for "endless" bodies - far beyond 10 KiB)
+    let announce_len = !success && g.chance(1, 2);
+    let head_without_len = head.clone();
     let head_kind = match g.below(8) {
         0 => HeadKind::Truncated(g.usize_below(head.len())),
         1 => HeadKind::Garbage,
@@ -97,6 +99,16 @@ fn gen(g: &mut G, thorough: bool) -> Plan {
             }
         };
         gen::gen_bytes(n, 0, g.subseed())
+    };
+    let mut head = head_without_len;
+    if announce_len {
+        head.extend_from_slice(format!("Content-Length: {}\r\n", body.len()).as_bytes());
+        g.probe("refusal-announces-content-length");
+    }
+    head.extend_from_slice(b"\r\n");
+    let head_kind = match head_kind {
+        HeadKind::Truncated(k) => HeadKind::Truncated(k.min(head.len() - 1)),
+        k => k,
     };
     let end = if success && head_kind == HeadKind::Valid { End::Stall } else { *g.pick(&[End::Fin, End::Fin, End::Stall, End::Rst]) };
     let wire: Vec<u8> = match &head_kind {
